@@ -1445,6 +1445,56 @@ def copy_item():
             "Definition gen_sql_texts_are_the_transcribed_ones : bool := true.\n" % (q_whole, q_task))
 
 
+def ident_item():
+    """TaskIdentifier.__repr__ / __eq__ / __hash__ / path / name: the printed form as a concatenation over (the path's
+    components joined, the name); equality as a boolean over (paths equal, names equal); the hash must be the hash of the
+    printed form (so that equal identifiers are one dictionary key: C20 canonical form)."""
+    rel = "conductor/task_identifier.py"
+    r = _body_without_docstring(_find_method(rel, "TaskIdentifier", "__repr__"))
+    if len(r) != 1 or not isinstance(r[0], ast.Return):
+        raise Unsupported("__repr__ is not a single return")
+    call = r[0].value
+    if not (isinstance(call, ast.Call) and ast.unparse(call.func) == "''.join" and len(call.args) == 1 and isinstance(call.args[0], ast.List) and not call.keywords):
+        raise Unsupported("__repr__ is not ''.join([...]): %s" % ast.unparse(call))
+    parts, sep = [], None
+    for e in call.args[0].elts:
+        src = ast.unparse(e)
+        if isinstance(e, ast.Constant) and isinstance(e.value, str):
+            parts.append(coq_str(e.value))
+        elif src == "self._name":
+            parts.append("name")
+        elif isinstance(e, ast.Call) and isinstance(e.func, ast.Attribute) and e.func.attr == "join" and isinstance(e.func.value, ast.Constant) \
+                and isinstance(e.func.value.value, str) and len(e.args) == 1 and ast.unparse(e.args[0]) == "self._path.parts":
+            if sep is not None:
+                raise Unsupported("__repr__ joins the path twice")
+            sep = e.func.value.value
+            parts.append("path_joined")
+        else:
+            raise Unsupported("__repr__: part outside the supported fragment: %s" % src)
+    if sep is None or "name" not in parts:
+        raise Unsupported("__repr__ does not print both the path and the name")
+    eq = _body_without_docstring(_find_method(rel, "TaskIdentifier", "__eq__"))
+    if len(eq) != 2 or ast.unparse(eq[0]) != "if not isinstance(other, TaskIdentifier):\n    raise NotImplementedError" or not isinstance(eq[1], ast.Return):
+        raise Unsupported("__eq__ has another shape")
+    eq_expr = _bexpr(eq[1].value, {"self.path == other.path": "path_eq", "other.path == self.path": "path_eq", "self._path == other._path": "path_eq",
+                                   "self.name == other.name": "name_eq", "other.name == self.name": "name_eq", "self._name == other._name": "name_eq"}, NAT_OPS)
+    h = [ast.unparse(x) for x in _body_without_docstring(_find_method(rel, "TaskIdentifier", "__hash__"))]
+    if h not in (["return hash(self.__repr__())"], ["return hash(repr(self))"]):
+        raise Unsupported("__hash__ is not the hash of the printed form: %r" % h)
+    for prop, field in (("path", "self._path"), ("name", "self._name")):
+        b = [ast.unparse(x) for x in _body_without_docstring(_find_method(rel, "TaskIdentifier", prop))]
+        if b != ["return " + field]:
+            raise Unsupported("property %s is not `return %s`" % (prop, field))
+    init = [ast.unparse(x) for x in _body_without_docstring(_find_method(rel, "TaskIdentifier", "__init__"))]
+    if sorted(init) != ["self._name = name", "self._path = path"]:
+        raise Unsupported("__init__ stores something else: %r" % init)
+    return ("(* conductor/task_identifier.py TaskIdentifier.__repr__ / __eq__ / __hash__ *)\n"
+            "Definition gen_ident_path_sep : list N := %s.\n"
+            "Definition gen_ident_repr (path_joined name : list N) : list N := %s.\n"
+            "Definition gen_ident_eq (path_eq name_eq : bool) : bool := %s.\n"
+            "Definition gen_ident_hash_is_of_repr : bool := true.\n" % (coq_str(sep), " ++ ".join(parts), eq_expr))
+
+
 def version_item():
     """VersionIndex.generate_new_output_version: the timestamp as a function of the clock and the last timestamp"""
     f = _find_method("conductor/execution/version_index.py", "VersionIndex", "generate_new_output_version")
@@ -1509,7 +1559,7 @@ def generate():
         failures["task_type_table"] = "%s: %s" % (type(ex).__name__, ex)
         parts.append("(* task_type_table: NOT TRANSLATED: %s *)\n" % str(ex).replace("*)", "* )"))
     for coqname, fn in (("gen_gate_open", gate_item), ("gen_new_version", version_item), ("gen_loop_goes_on", loop_item), ("gen_wants_slot", slot_item),
-                        ("gen_prune", prune_item), ("gen_should_run", should_run_item), ("gen_sel_top", select_item), ("gen_validate_args", validate_args_item), ("gen_finish", finish_item), ("gen_record_type", record_type_item), ("gen_tee_iteration", tee_item), ("gen_env_overrides", spawn_item), ("gen_launch_block", abort_item), ("gen_combine_decision", combine_item), ("gen_gc_decision", gc_item), ("gen_restore_before_loop", restore_item), ("gen_archive_output_decision", archive_item), ("gen_deps_paths_step", deps_paths_item), ("gen_copy_query", copy_item)):
+                        ("gen_prune", prune_item), ("gen_should_run", should_run_item), ("gen_sel_top", select_item), ("gen_validate_args", validate_args_item), ("gen_finish", finish_item), ("gen_record_type", record_type_item), ("gen_tee_iteration", tee_item), ("gen_env_overrides", spawn_item), ("gen_launch_block", abort_item), ("gen_combine_decision", combine_item), ("gen_gc_decision", gc_item), ("gen_restore_before_loop", restore_item), ("gen_archive_output_decision", archive_item), ("gen_deps_paths_step", deps_paths_item), ("gen_copy_query", copy_item), ("gen_ident_repr", ident_item)):
         try:
             parts.append(fn())
         except Exception as ex:  # pylint: disable=broad-except
